@@ -4,7 +4,13 @@ import (
 	"context"
 	"fmt"
 	"math/rand"
+	"sync/atomic"
 	"time"
+
+	logging "github.com/ipfs/go-log/v2"
+
+	"github.com/evstack/ev-node/block"
+	coresequencer "github.com/evstack/ev-node/core/sequencer"
 
 	"verifharness/vk"
 	"verifharness/world"
@@ -21,10 +27,31 @@ type LoopCase struct {
 	// NotifyAfterHeal: lazy mode only: false = the only notification of new transactions arrives during the outage (the
 	// transactions wait in the mempool; nothing new arrives afterwards)
 	NotifyAfterHeal bool `json:"notifications_continue_after_the_outage"`
+	// Reaper (lazy mode only): nobody notifies the manager directly; transactions are put into the execution double's
+	// mempool and the node's own Reaper (interval = block time) hands them to the sequencer and announces them. They
+	// arrive one at a time, the next only after the block asked for by the previous one: when the limit is reached no
+	// production attempt is outstanding. One more transaction arrives while production is paused.
+	Reaper bool `json:"transactions_through_the_reaper,omitempty"`
 }
 
 func (c LoopCase) key() string {
-	return fmt.Sprintf("loop l%d lazy=%v %s c%d n%v", c.Limit, c.Lazy, c.Pattern, c.Cycles, c.NotifyAfterHeal)
+	k := fmt.Sprintf("loop l%d lazy=%v %s c%d n%v", c.Limit, c.Lazy, c.Pattern, c.Cycles, c.NotifyAfterHeal)
+	if c.Reaper {
+		k += " reaper"
+	}
+	return k
+}
+
+// countingSeq counts the batches the reaper handed to the sequencer.
+type countingSeq struct {
+	*world.SeqDouble
+	n atomic.Int64
+}
+
+func (s *countingSeq) SubmitBatchTxs(ctx context.Context, req coresequencer.SubmitBatchTxsRequest) (*coresequencer.SubmitBatchTxsResponse, error) {
+	res, err := s.SeqDouble.SubmitBatchTxs(ctx, req)
+	s.n.Add(1)
+	return res, err
 }
 
 // runLoop: AggregationLoop, HeaderSubmissionLoop and DataSubmissionLoop of one aggregator run for real (block time 2 ms,
@@ -44,18 +71,38 @@ func runLoop(r *vk.Run, c LoopCase) {
 		}
 		return &world.SeqResp{Kind: world.SeqTxs, Time: t, Txs: [][]byte{[]byte(fmt.Sprintf("c08loop-%d-%d", c.ID, n))}}
 	}
+	exec := world.NewExecDouble()
+	cseq := &countingSeq{SeqDouble: seq}
 	n, err := world.NewNode(ctx, world.NodeOpts{Aggregator: true, InitialHeight: 1, MaxPending: c.Limit, Lazy: c.Lazy,
 		BlockTime: 2 * time.Millisecond, LazyInterval: time.Hour, DABlockTime: time.Millisecond, GenesisTime: genesis},
-		world.NewKeys("proposer"), world.NewMemDS(world.NewImage()), world.NewExecDouble(), seq, da, nil)
+		world.NewKeys("proposer"), world.NewMemDS(world.NewImage()), exec, cseq, da, nil)
 	if err != nil {
 		r.Violation("startup", err.Error(), c)
 		return
 	}
 	loops := world.StartLoops(ctx, n, "aggregation", "headerSubmit", "dataSubmit")
 	defer func() { _ = loops.Stop() }()
+	if c.Reaper {
+		rctx, rcancel := context.WithCancel(ctx)
+		reaper := block.NewReaper(rctx, exec, cseq, "verif-chain", 2*time.Millisecond, logging.Logger("verif-reaper"), world.NewMemDS(world.NewImage()))
+		reaper.SetManager(n.M)
+		done := make(chan struct{})
+		go func() { reaper.Start(rctx); close(done) }()
+		defer func() {
+			rcancel()
+			select {
+			case <-done:
+			case <-time.After(world.Watchdog):
+			}
+		}()
+	}
 	height := func() uint64 { h, _ := n.Store.Height(ctx); return h }
+	txN := 0
 	notify := func() {
-		if c.Lazy {
+		if c.Reaper {
+			txN++
+			exec.Inject([]byte(fmt.Sprintf("c08reap-%d-%d", c.ID, txN)))
+		} else if c.Lazy {
 			n.M.NotifyNewTransactions()
 		}
 	}
@@ -88,8 +135,15 @@ func runLoop(r *vk.Run, c LoopCase) {
 			return ph >= c.Limit || pd >= c.Limit
 		}
 		// production runs into the limit (in lazy mode every block needs a notification) and stays there
+		lastAsk := ^uint64(0)
 		stuck := waitUntil(10*time.Second, func() bool {
-			notify()
+			if !c.Reaper {
+				notify()
+			} else if h := height(); h != lastAsk && !pendingAtLimit() {
+				// one transaction, and the next one only after the block it asked for
+				lastAsk = h
+				notify()
+			}
 			sample()
 			if !pendingAtLimit() {
 				return false
@@ -107,7 +161,16 @@ func runLoop(r *vk.Run, c LoopCase) {
 		h0 := height()
 		for try := 0; try < 4 && !declined; try++ {
 			h0 = height()
+			reaped := cseq.n.Load()
 			notify()
+			if c.Reaper {
+				// the transaction is reaped (handed to the sequencer) while production is paused
+				if !waitUntil(10*time.Second, func() bool { return cseq.n.Load() > reaped }) {
+					r.Inconclusive(fmt.Sprintf("loop case %d: the reaper did not pick up a transaction within 10 s", c.ID))
+					return
+				}
+				r.Hit("loop-reaped-during-pause")
+			}
 			time.Sleep(20 * time.Millisecond)
 			sample()
 			declined = height() == h0
@@ -142,8 +205,12 @@ func runLoop(r *vk.Run, c LoopCase) {
 			}
 		} else if !resumed {
 			_, _, ph, pd := n.M.VerifWatermarks()
-			viol = append(viol, fmt.Sprintf("cycle %d: the DA layer accepts again; %v later the node's own production loop (lazy=%v, transactions notified during the outage are waiting, further notifications=%v) has raised the height only from %d to %d (limit %d; the node counts %d pending headers, %d pending data items)",
-				cyc, liveWait, c.Lazy, c.NotifyAfterHeal, h0, height(), c.Limit, ph, pd))
+			via := ""
+			if c.Reaper {
+				via = "; the transactions came through the node's own reaper, the last one while production was paused by the limit with no declined attempt outstanding"
+			}
+			viol = append(viol, fmt.Sprintf("cycle %d: the DA layer accepts again; %v later the node's own production loop (lazy=%v, transactions notified during the outage are waiting, further notifications=%v) has raised the height only from %d to %d (limit %d; the node counts %d pending headers, %d pending data items; idle interval 1 h%s)",
+				cyc, liveWait, c.Lazy, c.NotifyAfterHeal, h0, height(), c.Limit, ph, pd, via))
 		}
 	}
 	r.Hit("loop-bound")
@@ -159,6 +226,11 @@ func runLoop(r *vk.Run, c LoopCase) {
 		}
 	}
 	r.Eval(c.key(), true, c)
+}
+
+// genLoopReaper: lazy mode, transactions through the real Reaper, nothing arrives after the outage.
+func genLoopReaper(rng *rand.Rand, id int) LoopCase {
+	return LoopCase{ID: id, Limit: []uint64{1, 2, 3, 5}[rng.Intn(4)], Lazy: true, Reaper: true, Pattern: []string{"x", "xe", "xxe"}[rng.Intn(3)], Cycles: 1 + rng.Intn(3)}
 }
 
 func genLoop(rng *rand.Rand, id int) LoopCase {
